@@ -158,7 +158,11 @@ REPO = os.environ.get("VERIF_REPO", "/repo")
 FIXDIR = os.path.join(REPO, "tests", "data", "match")
 STEPS = "CDEFGAB"
 BASE = {"C": 0, "D": 2, "E": 4, "F": 5, "G": 7, "A": 9, "B": 11}
-TS_POOL = [(4, 4), (3, 4), (2, 4), (6, 8), (5, 4), (2, 2), (3, 8), (9, 8), (12, 8), (3, 2), (7, 8), (4, 8), (6, 4)]
+TS_POOL = [(4, 4), (3, 4), (2, 4), (6, 8), (5, 4), (2, 2), (3, 8), (9, 8), (12, 8), (3, 2), (7, 8), (4, 8), (6, 4),
+           (3, 16), (6, 16), (5, 8), (2, 8), (12, 16)]
+# metres whose beat is shorter than a quarter (positions in beats run ahead of positions in quarters) / not shorter
+TS_FINE = [(6, 8), (3, 8), (9, 8), (12, 8), (7, 8), (4, 8), (5, 8), (2, 8), (3, 16), (6, 16), (12, 16)]
+TS_COARSE = [(4, 4), (3, 4), (2, 4), (5, 4), (2, 2), (3, 2), (6, 4)]
 
 
 # ====================================================================== generation
@@ -190,12 +194,38 @@ def gen_part(rng, tier="quick"):
     same_den = rng.random() < 0.35
     d = {"id": "P0", "divs": divs, "ts": [], "ks": [], "clefs": [], "notes": [], "measures": [], "extras": []}
     beats, bt = pick_ts()
+    # shapes (round 4): the positions of a signature change in BEATS and in QUARTERS differ most after long stretches
+    # of metres counted in eighths / sixteenths (or halves); a final section shorter than the one before it is where
+    # a map keyed on the wrong unit still answers with the earlier signature
+    shape = rng.random()
+    plan = None
+    if shape < 0.12:
+        def pick_from(pool):
+            ok = [x for x in pool if barlen(*x)]
+            return rng.choice(ok) if ok else None
+        first = pick_from(TS_FINE if rng.random() < 0.7 else TS_COARSE)
+        last = pick_from(TS_COARSE if first in TS_FINE else TS_FINE)
+        if first and last:
+            n_first = rng.randint(2, 6)
+            n_last = rng.randint(1, 2)
+            mid = pick_from(TS_POOL) if rng.random() < 0.3 else None
+            plan = [first] * n_first + ([mid] if mid else []) + [last] * n_last
+            n_measures = len(plan)
+            beats, bt = plan[0]
+    elif shape < 0.2:
+        n_measures = rng.randint(6, 9)
     d["ts"].append([0, beats, bt])
     t = 0
     bars = []
     pickup = rng.random() < 0.35 and barlen(beats, bt) > unit
+    if plan and pickup:
+        plan = [plan[0]] + plan
     for m in range(n_measures + (1 if pickup else 0)):
-        if m > 0 and rng.random() < 0.3:
+        if plan:
+            if m > 0 and tuple(plan[m]) != (beats, bt):
+                beats, bt = plan[m]
+                d["ts"].append([t, beats, bt])
+        elif m > 0 and rng.random() < 0.3:
             for _ in range(20):
                 b2, bt2 = pick_ts()
                 if not same_den or bt2 == bt:
@@ -268,6 +298,16 @@ def build_part(d):
     """gen_score.build_part plus articulations (copied: the shared helper has no articulations)"""
     import partitura.score as S
 
+    if d.get("warm"):
+        # the same part through a construction history with reads in between (shared helper); articulations after
+        import gen_score
+
+        p = gen_score.build_part(d)
+        arts = {n["id"]: n["art"] for n in d.get("notes", []) if n["kind"] == "note" and n.get("art")}
+        for o in p.iter_all(S.Note, include_subclasses=False):
+            if o.id in arts:
+                o.articulations = list(arts[o.id])
+        return p
     p = S.Part(d["id"], part_name=d.get("name", d["id"]), quarter_duration=d["divs"])
     for t, b, bt in d.get("ts", []):
         p.add(S.TimeSignature(b, bt), t)
@@ -317,6 +357,20 @@ def gen_case(rng, tier="quick"):
     spq = rng.uniform(0.25, 1.2)  # seconds per quarter of the "performance"
     t0 = rng.choice([0.0, 0.5, 1.0, rng.uniform(0, 3)])
     on_grid = rng.random() < 0.7
+    # round 4: LATE passages and FINE clocks.  Every written tick must be round(1e6*ppq*seconds/mpq) of the binary64
+    # seconds the performed part holds; a detour of the seconds through a narrower type (the float32 columns of
+    # the note array: 24 bits) is off by more than half a tick only minutes to hours into a recording or with a fine
+    # clock (4000 ticks per quarter of the Vienna 4x22 / Zeilinger files, up to 10000, small mpq)
+    late = rng.random()
+    if late < 0.3:
+        t0 = rng.choice([rng.uniform(60, 1200), rng.uniform(1200, 7200), rng.uniform(7200, 30000)])
+        if rng.random() < 0.75:
+            ppq = rng.choice([4000, 4000, 10000, 960, 1920, rng.randint(2000, 10000)])
+        if rng.random() < 0.5:
+            mpq = rng.choice([500000, 250000, 100000, rng.randint(60000, 500000)])
+    if rng.random() < 0.3:
+        # a construction history with read-only views in between (stale memoisation), see gen_score.build_part
+        pd["warm"] = rng.randint(1, 255)
 
     def q(t):
         if not on_grid:
@@ -406,7 +460,10 @@ def gen_case(rng, tier="quick"):
     for _ in range(rng.choice([0, 0, 1, 3, 8, 20])):
         controls.append({"number": rng.choice([64, 64, 64, 67, 67, 66, 1]), "time": q(rng.uniform(0, t0 + end_q * spq + 1)),
                          "value": rng.randint(0, 127)})
-    return {"k": "rt", "part": pd, "perf": {"notes": notes, "controls": controls}, "align": align, "ppq": ppq, "mpq": mpq}
+    desc = {"k": "rt", "part": pd, "perf": {"notes": notes, "controls": controls}, "align": align, "ppq": ppq, "mpq": mpq}
+    if rng.random() < 0.3:
+        desc["pwarm"] = True       # the performed part's views are read before it is written
+    return desc
 
 
 def domain_ok(desc):
@@ -426,7 +483,10 @@ def domain_ok(desc):
     if not any(a["label"] in ("match", "deletion") for a in desc["align"]):
         return False
     means = sorted(sum(v) / len(v) for v in groups.values())
-    return all(b - a > 1e-4 for a, b in zip(means, means[1:]))
+    # the implementation takes these means in float32: late in a recording two float32 numbers are up to a
+    # millisecond apart, the means must stay distinct after that rounding
+    gap = max(1e-4, 4 * float(np.spacing(np.float32(means[-1])))) if means else 1e-4
+    return all(b - a > gap for a, b in zip(means, means[1:]))
 
 
 def cases(rng, tier):
@@ -477,7 +537,15 @@ def build_perf(desc):
             dn["channel"] = n["channel"]
         notes.append(dn)
     controls = [dict(number=c["number"], time=c["time"], value=c["value"]) for c in desc["perf"]["controls"]]
-    return PerformedPart(notes, id="PP", controls=controls, ppq=desc["ppq"], mpq=desc["mpq"])
+    pp = PerformedPart(notes, id="PP", controls=controls, ppq=desc["ppq"], mpq=desc["mpq"])
+    if desc.get("pwarm"):
+        try:
+            pp.note_array()
+            [dict(n) for n in pp.notes]
+            pp.num_tracks
+        except Exception:
+            pass
+    return pp
 
 
 def exact_tick(t, ppq, mpq):
@@ -805,6 +873,7 @@ def oracle_rt(desc, res, v0=False):
     if not grid_ok(desc):
         return F
     F += oracle_quarters(desc, res, stored, v0)
+    F += oracle_measures(desc, res, stored, v0)
     if not bars_covered(desc):
         return F
     sbm, lbm = sp.beat_map, lpart.beat_map
@@ -919,6 +988,28 @@ def oracle_text(desc, res):
             got = (int(m.group(5)), dec4(m.group(9)), dec4(m.group(10)))
             if exp != got or int(m.group(6)) < 1:
                 F.append("text-snote: line of %r states measure/onset/offset %r (beat %s), the score has %r" % (m.group(1), got, m.group(6), exp))
+    # every written tick is the nearest tick of the binary64 seconds the performed part holds (exact rational
+    # arithmetic; a tie of x.5 either way), for every clock and however late in the recording
+    pn = {n["id"]: n for n in desc["perf"]["notes"]}
+    ppq, mpq = desc["ppq"], desc["mpq"]
+    for ln in res["text"]:
+        if ln.startswith(("snote(", "insertion-", "ornament(")):
+            m = NOTE_RE.search(ln)
+            if m is None or m.group(1) not in pn:
+                continue
+            n = pn[m.group(1)]
+            for what, g, key in (("onset", 3, "on"), ("offset", 4, "off")):
+                if not tick_ok(int(m.group(g)), n[key], ppq, mpq):
+                    F.append("text-tick: note %r is written with %s tick %s, its %s of %r s is tick %s (ppq=%d mpq=%d)" % (
+                        m.group(1), what, m.group(g), what, n[key], float(exact_tick(n[key], ppq, mpq)), ppq, mpq))
+    for c_re, num in (("sustain", 64), ("soft", 67)):
+        written = sorted(int(m.group(2)) for m in (PEDAL_RE.match(ln) for ln in res["text"]) if m and m.group(1) == c_re)
+        times = sorted(c["time"] for c in desc["perf"]["controls"] if c["number"] == num)
+        # every written pedal tick is the nearest tick of some saved event of that controller and vice versa
+        if any(not any(tick_ok(w, t, ppq, mpq) for t in times) for w in written) or \
+                any(not any(tick_ok(w, t, ppq, mpq) for w in written) for t in times):
+            F.append("text-tick: %s pedal lines at ticks %r are not the nearest ticks of the saved times %r (ppq=%d mpq=%d)" % (
+                c_re, written[:6], times[:6], ppq, mpq))
     for attr, src, namef in (("keySignature", sorted(pd["ks"]), lambda x: key_name(x[1], x[2])),
                              ("timeSignature", sorted(pd["ts"]), lambda x: "%d/%d" % (x[1], x[2]))):
         lines = [SIG_RE.match(ln) for ln in res["text"] if ln.startswith("scoreprop(" + attr)]
@@ -990,6 +1081,99 @@ def oracle_quarters(desc, res, stored, v0=False):
                 if v not in loaded.get(q, []):
                     F.append("%s: %r written %s quarters after the origin, loaded there: %r (all: %r)" % (
                         "timesig-q" if cls is S.TimeSignature else "keysig-q", v, q, loaded.get(q), sorted(loaded.items())[:6]))
+    return F
+
+
+def oracle_measures(desc, res, stored, v0=False):
+    """"measures at the same positions" to the END of the score: the bars from the first to the last stored note
+    as a chain of measures, in quarters from the loaded origin (independent of the loaded beat map).
+
+    * measure-end: the measure of the LAST bar that holds a stored note ends where that bar ends in the saved score -
+      when that bar is complete (as long as its time signature says: the property's "complete final measure"; the
+      format stores no measure lengths, so the reader can only close the last bar with the signature in force there)
+      and is not the pickup.  Exact when the end lies on the reader's division grid, else to half a division.
+    * measure-extra: no measure that was not written: between the first and the last stored bar line the loaded
+      measures start exactly at the bar lines of the bars holding a stored note (every bar, when the alignment
+      touches every bar - only then demanded), and after the end of the last stored bar there is no measure unless
+      something stored sounds or stands there (a stored note tied / sounding across that bar line, a later
+      signature: add_measures then fills the rest of the timeline, legitimately).
+    * measure-chain: the loaded measures tile the timeline (each ends where the next begins, none overlap) - when the
+      alignment touches every bar (over a bar without a stored note the reader extends the previous measure, and a
+      signature standing in such a bar makes add_measures start another measure inside it: not judged).
+
+    The same for the old formats (v0), whose beat times are binary64 reprs (the last bar is closed with the signature
+    in force at its first stored note, fix C08-17, so float noise at the bar line does not matter)."""
+    import partitura.score as S
+
+    F = []
+    pd = desc["part"]
+    divs = pd["divs"]
+    byid = {n["id"]: n for n in pd["notes"]}
+    lpart = res["score"][0]
+    ldivs = int(lpart._quarter_durations[0])
+    meas = sorted(pd["measures"])
+    o_first = min(byid[s]["t"] for s in stored)
+    pickup = beats_exact(pd, meas[0][0]) < 0
+    beat0 = meas[0][1] if pickup else meas[0][0]
+    o_ref = o_first if beats_exact(pd, o_first) <= 0 else beat0
+
+    def tied_dur(n):
+        du = n["dur"]
+        while n.get("tie"):
+            n = byid[n["tie"]]
+            du += n["dur"]
+        return du
+
+    stored_t = sorted(byid[s]["t"] for s in stored)
+    holding = [i for i, (ms, me, _) in enumerate(meas) if any(ms <= t < me for t in stored_t)]
+    if not holding:
+        return F
+    a, b = holding[0], holding[-1]
+    if pickup and b == 0:
+        return F                      # everything stored lies in the pickup: an incomplete final bar
+    ms_b, me_b = meas[b][0], meas[b][1]
+    ts = sorted(pd["ts"])
+    inforce = [x for x in ts if x[0] <= ms_b]
+    if not inforce:
+        return F
+    _, num, den = inforce[-1]
+    complete = (Fraction(me_b - ms_b, divs) == Fraction(4 * num, den)
+                and not any(ms_b < x[0] < me_b for x in ts))
+    lm = sorted((Fraction(m.start.t).limit_denominator(10**6) / ldivs, Fraction(m.end.t).limit_denominator(10**6) / ldivs)
+                for m in lpart.iter_all(S.Measure))
+    for (s0, e0), (s1, e1) in zip(lm, lm[1:]):
+        if e0 != s1 and bars_covered(desc):
+            F.append("measure-chain: loaded measures [%s, %s) and [%s, %s) (quarters) do not follow each other" % (s0, e0, s1, e1))
+            break
+    if not complete:
+        return F
+    want_s = max(Fraction(0), Fraction(ms_b - o_ref, divs))
+    want_e = Fraction(me_b - o_ref, divs)
+    on_grid = (want_e * ldivs).denominator == 1
+    hit = [x for x in lm if x[0] == want_s]
+    if not hit:
+        F.append("measure-end: the last bar holding a stored note starts %s quarters after the origin; no loaded measure "
+                 "starts there (loaded: %r)" % (want_s, [(str(x), str(y)) for x, y in lm[-4:]]))
+        return F
+    if abs(hit[-1][1] - want_e) * ldivs > Fraction(1, 2):
+        F.append("measure-end: the last bar holding a stored note (%d/%d) spans [%s, %s) quarters from the origin, the loaded "
+                 "measure there spans [%s, %s) (loaded measures: %r)" % (num, den, want_s, want_e, hit[-1][0], hit[-1][1],
+                                                                         [(str(x), str(y)) for x, y in lm[-4:]]))
+    # ---- nothing that was not written
+    later = (any(byid[s]["t"] + tied_dur(byid[s]) > me_b for s in stored)
+             or any(x[0] > me_b for x in ts) or any(x[0] > me_b for x in pd["ks"]))
+    if on_grid and not later:
+        extra = [x for x in lm if x[0] >= want_e]
+        if extra or (lm and lm[-1][1] != want_e):
+            F.append("measure-extra: nothing is stored after the last stored bar (ends %s quarters after the origin), but the "
+                     "loaded score has measures %r" % (want_e, [(str(x), str(y)) for x, y in lm[-4:]]))
+    if bars_covered(desc):
+        first_s = max(Fraction(0), Fraction(meas[a][0] - o_ref, divs))
+        want = sorted(set(max(Fraction(0), Fraction(meas[i][0] - o_ref, divs)) for i in range(a, b + 1)))
+        got = [x[0] for x in lm if first_s <= x[0] < want_e]
+        if got != want and all((w * ldivs).denominator == 1 for w in want):
+            F.append("measure-extra: bars holding stored notes start %r quarters after the origin, loaded measures in that "
+                     "stretch start %r" % ([str(w) for w in want], [str(g) for g in got]))
     return F
 
 
@@ -1210,10 +1394,14 @@ def corr_rt(desc, res, ev):
             keys_f.append(("p", p2s(pn["on"])))
     # the model takes score onsets in beats: they are sent as exact rationals computed by the model itself
     # (request `enc`), here by the independent `beats_exact`; a disagreement of the two shows in `enc`.
+    # the knots of the implementation's map are float32 means of float32 onsets (the model: exact means): the keys
+    # agree to a tolerance that grows with the spacing of float32 numbers at the performed times (2e-4 up to 4 s)
+    tmax = max([abs(n["on"]) for n in desc["perf"]["notes"]] + [0.0])
+    scale = max(1.0, tmax / 4.0)
     safe = True
     for i in range(len(keys_f)):
         for j in range(i + 1, len(keys_f)):
-            if (keys_f[i][0] == "p" or keys_f[j][0] == "p") and abs(keys_f[i][1] - keys_f[j][1]) < 1e-3:
+            if (keys_f[i][0] == "p" or keys_f[j][0] == "p") and abs(keys_f[i][1] - keys_f[j][1]) < 1e-3 * scale:
                 safe = False
     # implementation: note lines in file order -> alignment entry index, and their primary keys
     def entry_index(ln):
@@ -1237,8 +1425,9 @@ def corr_rt(desc, res, ev):
         if ln.startswith(("snote(", "insertion-", "ornament(")):
             order.append(entry_index(ln))
     body = "%s %s" % (W.lst(lambda x: x, pairs), W.lst(lambda x: x, ents))
-    ev.requests.append("ordk " + body)
-    ev.impl.append(("@approx", sorted(k for _, k in keys_f if k == k) + [k for _, k in keys_f if k != k], 2e-4))
+    if scale <= 8:
+        ev.requests.append("ordk " + body)
+        ev.impl.append(("@approx", sorted(k for _, k in keys_f if k == k) + [k for _, k in keys_f if k != k], 2e-4 * scale))
     if safe:
         ev.requests.append("ordi " + body)
         ev.impl.append(W.f_list(str, order))
